@@ -20,6 +20,7 @@ CONSTANTS
   FixD6 = TRUE
   FixD7 = TRUE
   FixD16 = TRUE
+  FixD10a = TRUE
 VIEW view
 INVARIANTS TypeOK NoBadC20 NotifInv
 CHECK_DEADLOCK TRUE
